@@ -27,7 +27,8 @@ from vzstatic.svc import Svc, where
 MANIFEST = {
     'technique': ('transaction typestate (clean/dirty/committed) by abstract interpretation '
                   'over exception-aware CFGs of every SQLDataStore method; query kind by '
-                  'provenance; path counting of mutator calls per RPC'),
+                  'provenance; path counting of mutator calls per RPC'
+                  '; start-up closure of the constructor is write-free; private datastore helpers inlined into the transaction typestate'),
     'level_text': (
         'Static: every SQLDataStore method wraps all its writes in exactly one transaction on '
         'every normal path and rolls back before every exceptional exit; every single-resource '
